@@ -82,6 +82,7 @@ func (f *FaultyReader) Read(p []byte) (int, error) {
 // FaultySink accepts bytes until a limit, then fails or writes short.
 type FaultySink struct {
 	FailAfter int  // <0: never; else total bytes accepted before every write fails
+	Recover   bool // after the failing call the sink accepts everything again
 	Short     bool // at the limit: return (n < len, io.ErrShortWrite) instead of an error of its own
 	Got       []byte
 	Calls     [][]byte
@@ -103,6 +104,9 @@ func (s *FaultySink) Write(p []byte) (int, error) {
 	s.Got = append(s.Got, p[:room]...)
 	s.Calls = append(s.Calls, append([]byte(nil), p[:room]...))
 	s.Failed = true
+	if s.Recover {
+		s.FailAfter = -1
+	}
 	if s.Short {
 		return room, io.ErrShortWrite
 	}
